@@ -1,3 +1,4 @@
+//! C20 driver: subcommands `topo`, `kahn`.
 use serde_json::{json, Value};
 use std::collections::HashSet;
 use tauri_typegen::analysis::dependency_graph::TypeDependencyGraph;
@@ -66,4 +67,8 @@ pub fn kahn(case: &Value) -> Value {
         }
     }
     json!({"id": case["id"], "runs": runs})
+}
+
+fn main() {
+    tt_harness::dispatch(&[("topo", topo), ("kahn", kahn)]);
 }
